@@ -91,6 +91,7 @@ def make_opaques(p):
     Opaque("Oupd", (p + 1) + so + (p + 1), (p + 1) + so)
     Opaque("Val", KS + p + 1, 3)           # validation module: (crit, stop-score, improve-score)
     Opaque("Vst", KS + p + 1, KS)
+    Opaque("Rar", KS + p + 1 + 1, KS)       # refinement: new generator state from (state, current params, iteration)
     return so
 
 
@@ -123,6 +124,32 @@ class OVal(AbstractValidationModule):
         return new, y[1] > 0, y[0], y[2] > 0
 
 
+import contextlib
+
+
+@contextlib.contextmanager
+def rar_contract(active=True):
+    """solve's refinement calls replaced by their contracts (C16 / C17): init_rar returns the generator unchanged;
+    trigger_rar(i, loss, params, data, ..) returns the loss and the parameters *unchanged* and a generator refined from
+    (its state, the parameters it was given, i).  Which parameters solve hands over is thereby observable."""
+    if not active:
+        yield
+        return
+    old = (solve_mod.trigger_rar, solve_mod.init_rar)
+
+    def init_c(data):
+        return data, "rar_step_true", "rar_step_false"
+
+    def trig_c(i, loss, params, data, ft, ff):
+        z = jnp.concatenate([data.state, flat_params(params), jnp.reshape(jnp.asarray(i, dtype=data.state.dtype), (1,))])
+        return loss, params, OGen(registry()["Rar"](z), data.rar_parameters, data.name)
+    solve_mod.trigger_rar, solve_mod.init_rar = trig_c, init_c
+    try:
+        yield
+    finally:
+        solve_mod.trigger_rar, solve_mod.init_rar = old
+
+
 class Capture:
     """trace solve once with jax.lax.while_loop replaced by a recorder"""
 
@@ -141,9 +168,11 @@ class Capture:
                 return jax.tree_util.tree_unflatten(rec["treedef"], list(final_leaves))
             return carry
         jax.lax.while_loop = fake
+        rar = kw.pop("_rar_contract", False)
         try:
             kw.setdefault("verbose", False)
-            out = jinns.solve(**kw)
+            with rar_contract(rar):
+                out = jinns.solve(**kw)
         finally:
             jax.lax.while_loop = real
         return out
